@@ -11,7 +11,7 @@ use proptest::prelude::*;
 use serde::{Deserialize, Serialize};
 use std::collections::BTreeMap;
 
-pub const RULE: &str = "(D0) every protected name (16 keywords / inputs / constants / inf / infinity and every name of get_built_in_function_idents()) x 11 binding forms (plain, output, nested in parentheses / list / record / operator chain / conditional, function value; and inside a lambda body or do-block): the top-level forms must fail, and in all forms what typeof / to_string / field access observe of the name at top level, and the set of root names, must be unchanged. (D1) every sequence up to length 4 (thorough: 5 over a 27-template core) over an alphabet of statement templates on names a, b: bind, rebind, copy, nested assignment `a = (b = 5) + 1`, self-nested `a = (a = 1) + 1`, list-nested, partially failing `[a = 1, nope]`, `output a`, `output a = 1`, do-block shadowing / nested assignment inside a do-block / do-block returning a closure, functions whose parameters reuse a / b, calls, closures over a (reading it, rebinding it in a do-block) called at top level and from inside a function whose parameter is called a, assignment inside a lambda body (with parameters; anonymous without parameters, with and without captured names), failing statements, attempts to bind keywords, inputs, constants and built-in names; each statement is evaluated like a REPL line and compared with a bind-once reference model (success / failure, the whole root environment, values). (D2) random sessions of 5-40 generated statements with rebinding attempts and failing statements, checked with history invariants: snapshot monotonicity, no insert into the root environment for a key it holds (hook H2), reserved names never bound, root names are a subset of the names assigned in top-level position. (D3) sessions of 2-7 one-line statements (heap-valued bindings, nested bindings inside lines that fail later, rebinding attempts, allocating lines) typed into the interactive CLI on a pseudo-terminal; afterwards every name is printed and must show what the same lines give in-process. Non-trivial = the history contains a (re)binding attempt on an already bound or reserved name, or a shadowing scope; distinct by the statement sequence.";
+pub const RULE: &str = "(D0) every protected name (16 keywords / inputs / constants / inf / infinity and every name of get_built_in_function_idents()) x 15 binding forms (plain, output, nested in parentheses / list / record / operator chain / conditional, function value; inside a lambda body or do-block; and as a do-block local / parameter that is read back - which must fail or give the bound value): the top-level forms must fail, and in all forms what typeof / to_string / field access observe of the name at top level, and the set of root names, must be unchanged. (D1) every sequence up to length 4 (thorough: 5 over a 27-template core) over an alphabet of statement templates on names a, b: bind, rebind, copy, nested assignment `a = (b = 5) + 1`, self-nested `a = (a = 1) + 1`, list-nested, partially failing `[a = 1, nope]`, `output a`, `output a = 1`, do-block shadowing / nested assignment inside a do-block / do-block returning a closure, functions whose parameters reuse a / b, calls, closures over a (reading it, rebinding it in a do-block) called at top level and from inside a function whose parameter is called a, assignment inside a lambda body (with parameters; anonymous without parameters, with and without captured names), failing statements, attempts to bind keywords, inputs, constants and built-in names; each statement is evaluated like a REPL line and compared with a bind-once reference model (success / failure, the whole root environment, values). (D2) random sessions of 5-40 generated statements with rebinding attempts and failing statements, checked with history invariants: snapshot monotonicity, no insert into the root environment for a key it holds (hook H2), reserved names never bound, root names are a subset of the names assigned in top-level position. (D3) sessions of 2-7 one-line statements (heap-valued bindings, nested bindings inside lines that fail later, rebinding attempts, allocating lines) typed into the interactive CLI on a pseudo-terminal; afterwards every name is printed and must show what the same lines give in-process. Non-trivial = the history contains a (re)binding attempt on an already bound or reserved name, or a shadowing scope; distinct by the statement sequence.";
 pub const ASSUMPTIONS: &[&str] = &[
     "hook H2 (thread-local log of Environment::insert) is a monitor only; with the feature off the code is unchanged",
     "a statement that fails half-way may keep the bindings its already-evaluated inner assignments made (the statement only requires that bound names never change)",
@@ -356,6 +356,11 @@ pub const PROTECTED_FORMS: &[(&str, bool)] = &[
     ("[1] via (x => (NAME = x))", false),
     ("do {\n  NAME = 1\n  return 2\n}", false),
     ("(() => do {\n  NAME = 5\n  return NAME\n})()", false),
+    // a binding that is accepted must be readable: these may fail, or give 7
+    ("do {\n  NAME = 7\n  return NAME\n}", false),
+    ("((NAME) => NAME)(7)", false),
+    ("((a, NAME?) => NAME)(1, 7)", false),
+    ("[7] via (NAME => NAME)", false),
 ];
 
 /// what a user can observe of a protected name at top level
@@ -448,6 +453,18 @@ impl Check for History {
                 let log = verif_hooks::take();
                 if let Some(k) = monitor_violation(&log) {
                     fail!(format!("protected:monitor:root-overwrite:{}", tmpl.replace('\n', " ")), "`{}`: the root environment was overwritten for key {}", src, k);
+                }
+                if tmpl.contains("7") {
+                    // read-back forms: failure, or the value that was bound
+                    let ok = match &got {
+                        Err(_) => true,
+                        Ok(MV::Num(f)) => f.0 == 7.0,
+                        Ok(MV::List(v)) => matches!(v.as_slice(), [MV::Num(f)] if f.0 == 7.0),
+                        _ => false,
+                    };
+                    if !ok {
+                        fail!(format!("protected:unreadable-binding:{}", tmpl.replace('\n', " ")), "`{}` binds {} to 7 without complaint but reads back {:?}", src, name, got);
+                    }
                 }
                 if must_fail && got.is_ok() {
                     fail!(format!("protected:bound:{}", tmpl.replace('\n', " ")), "`{}` succeeded ({:?}) although {} is a keyword, a built-in function name, inputs or constants", src, got, name);
